@@ -12,6 +12,7 @@ import (
 	"net/url"
 	"os"
 	"path/filepath"
+	"sort"
 	"strings"
 	"time"
 
@@ -233,6 +234,38 @@ func genTargets(r *rand.Rand) map[string]*receiver.Recv {
 	return t
 }
 
+// mkWorker: the sender worker under test. Half of the time it is the one the subsystem's own constructor builds from a
+// configured target list (sender.New: the configured targets plus, when none is called "default", the implicit
+// default target poll group "default"), with the capture plugins added; otherwise the bare worker over the table as
+// given. Returns the table the resolution rule has to use.
+func mkWorker(r *rand.Rand, col *colAIO, met *metrics.Metrics, targets map[string]*receiver.Recv, plugins ...aio.Plugin) (*sender.SenderWorker, map[string]*receiver.Recv) {
+	if r.Intn(2) == 0 {
+		return sender.NewVerifWorker(col, met, targets, plugins...), targets
+	}
+	cfg := &sender.Config{Size: 1}
+	names := keysOf(targets)
+	sort.Strings(names)
+	for _, n := range names {
+		cfg.Targets = append(cfg.Targets, sender.TargetConfig{Name: n, Type: targets[n].Type, Data: targets[n].Data})
+	}
+	sn, err := sender.New(col, met, cfg)
+	if err != nil {
+		panic(err)
+	}
+	w := sn.VerifWorker()
+	for _, p := range plugins {
+		w.AddPlugin(p)
+	}
+	eff := map[string]*receiver.Recv{}
+	for k, v := range targets {
+		eff[k] = v
+	}
+	if _, ok := eff["default"]; !ok {
+		eff["default"] = &receiver.Recv{Type: "poll", Data: []byte(`{"group":"default"}`)}
+	}
+	return w, eff
+}
+
 // ---- one case ---------------------------------------------------------------
 
 type caseOut struct {
@@ -321,7 +354,7 @@ func runCase(r *rand.Rand, met *metrics.Metrics, rep *vh.Report) *caseOut {
 	outcome := pick(r, "success", "success", "false", "error", "full")
 	var got []captured
 	col := &colAIO{}
-	w := sender.NewVerifWorker(col, met, targets, &capPlugin{typ: "http", got: &got, outcome: outcome}, &capPlugin{typ: "poll", got: &got, outcome: outcome})
+	w, targets := mkWorker(r, col, met, targets, &capPlugin{typ: "http", got: &got, outcome: outcome}, &capPlugin{typ: "poll", got: &got, outcome: outcome})
 	created := int64(1700000000000)
 	tk := &task.Task{Id: "__invoke:" + p.Id, Counter: 1 + r.Intn(5), Timeout: p.Timeout, State: task.Enqueued, RootPromiseId: p.Id, Recv: rc.Router.Recv, Mesg: &message.Mesg{Type: kind, Root: p.Id, Leaf: p.Id}, CreatedOn: &created}
 	sub := &t_aio.SenderSubmission{Task: tk, Promise: p,
@@ -493,7 +526,7 @@ func runStream(r *rand.Rand, met *metrics.Metrics, rep *vh.Report) *caseOut {
 	rep.Events += n
 	var got []captured
 	col := &colAIO{}
-	w := sender.NewVerifWorker(col, met, targets, &capPlugin{typ: "http", got: &got, outcome: "success"}, &capPlugin{typ: "poll", got: &got, outcome: "success"})
+	w, targets := mkWorker(r, col, met, targets, &capPlugin{typ: "http", got: &got, outcome: "success"}, &capPlugin{typ: "poll", got: &got, outcome: "success"})
 	type sent struct {
 		it   *item
 		from int
@@ -638,7 +671,9 @@ func main() {
 		if *prop == "C20" && i%5 != 4 {
 			continue // C20 uses this engine only for the stream cases (messages judged after later hand-offs)
 		}
-		if i%5 == 4 {
+		if i%200 == 7 && *prop == "C19" {
+			o = runHttpReal(r, met, rep)
+		} else if i%5 == 4 {
 			o = runStream(r, met, rep)
 		} else {
 			o = runCase(r, met, rep)
